@@ -13,6 +13,15 @@ CHECKS = {
  "C04": dict(technique="bounded-exhaustive enumeration of grammar derivations x layouts x comment placements, parsed by the real parser and compared with the generating derivation",
    text="all derivations of the SPL grammar up to the token bounds per focus family (expressions, statements, type expressions, whole programs) in typed contexts x 6 layouts x a comment in every gap: projection of the parsed tree equals the derivation, every node range equals its token span, no syntax diagnostic",
    note="expected tree known by construction from the generator (no reference parser); bounded by token counts and pools", ref="4/C04"),
+ "C08": dict(technique="explicit-state exploration of didChange histories against the real document broker with the LSP text model as reference (all events over a bounded text/position/replacement alphabet, batches, BFS), plus position round trip through the real server loop",
+   text="all initial texts over {a, 2/3/4-byte chars, CR, LF, ;} up to length 3/4 x every ordered pair of probe positions (all UTF-16 columns, overshooting columns and lines) x 5 replacements and range-less replacements, notifications with 1-3 events, BFS over histories: after every notification the broker's text equals the client text of the LSP model; prepareRename ranges of every identifier of all strings over a 10-symbol alphabet address the same token when sent back",
+   note="reference model lsptext.rs; positions inside a surrogate pair are excluded (undefined in LSP); broker driven through its DocumentRequest channel", ref="4/C08"),
+ "C09": dict(technique="bounded-exhaustive enumeration of programs x layouts x comment placements x formatting options through the real formatting handler, re-lexed by an independent lexer",
+   text="for every generated syntactically valid program text and option value: answer is null or exactly one TextEdit over exactly the whole document (LSP text model), the non-comment token sequence (kinds and literal values, independent lexer) is unchanged, and re-opening the formatted text publishes the same diagnostics",
+   note="independent lexer reflex.rs and text model lsptext.rs; diagnostics compared as (message, non-comment token span)", ref="4/C09"),
+ "C17": dict(technique="bounded-exhaustive enumeration of programs x layouts x comment placements through the real foldingRange handler; expected folds by construction",
+   text="one fold per procedure, in source order, from the line of `proc` to the line of its last token for every generated program x layout x comment-gap variant; well-formedness (start<=end, inside document, non-overlapping) for every token soup up to 3/4 tokens",
+   note="line numbers from the independent text model lsptext.rs", ref="4/C17"),
  "C06": dict(technique="bounded-exhaustive input enumeration of the real lexer against an independent reference lexer",
    text="every string over a 15/24-symbol character alphabet up to length 4/6 and every sequence of up to 3/4 lexemes x 5 separators: tiling invariant on all, kinds/values/ranges equal to the reference lexer on all lexically valid ones",
    note="trusted: reference lexer reflex.rs; bounded by alphabet and length", ref="4/C06"),
